@@ -2,7 +2,7 @@
    Statements only; proofs are in Proofs/Xfr*.v, the model in Model/XfrM.v, the server-side
    specification (headers, versions, streams) in Proofs/XfrSpec.v. *)
 From DV Require Import Base.Prelude Model.XfrM Proofs.XfrSpec.
-From DV Require Proofs.XfrSafety Proofs.XfrBasic.
+From DV Require Proofs.XfrSafety Proofs.XfrBasic Proofs.XfrIxfr.
 
 (* Whatever is received (any messages, any records, any chunking, any fault), if the transfer ends
    with an exception - including the stream ending before the transfer is complete - the zone is
@@ -54,6 +54,45 @@ Theorem use_tcp_signalled : forall z ser w ws r0,
 Proof. exact XfrBasic.use_tcp_signalled. Qed.
 Print Assumptions use_tcp_signalled.
 
+(* Multi-step incremental chains: for every chain of well-formed server versions v0 -> v1 -> ... -> vn
+   (the intermediate serials differ from vn's, vn is not older than v0 in RFC 1982 terms), a client
+   zone equal to v0, and EVERY division of the response stream into messages, the transfer completes
+   and the zone equals vn (with vn's SOA, hence its serial). *)
+Theorem ixfr_converges : forall v0 chain z0 ws,
+  chain_ok v0 chain -> zeq z0 (zone_of v0) -> chunking tIXFR (ixfr_stream v0 chain) ws ->
+  exists z' n, inbound_xfr z0 tIXFR (Some (v_serial v0)) false ws = (Done z', n)
+               /\ zeq z' (zone_of (last chain v0)).
+Proof. exact XfrIxfr.ixfr_converges. Qed.
+Print Assumptions ixfr_converges.
+
+(* UDP IXFR: the same stream in one datagram *)
+Theorem udp_ixfr : forall v0 chain z0 w,
+  chain_ok v0 chain -> zeq z0 (zone_of v0) ->
+  header_ok tIXFR w -> w_records w = ixfr_stream v0 chain ->
+  exists z', inbound_xfr z0 tIXFR (Some (v_serial v0)) true [w] = (Done z', 1%nat)
+             /\ zeq z' (zone_of (last chain v0)).
+Proof. exact XfrIxfr.udp_ixfr. Qed.
+Print Assumptions udp_ixfr.
+
+(* based on a different serial *)
+Theorem wrong_base_rejected : forall v0 chain z ser ws,
+  chain <> [] -> chunking tIXFR (ixfr_stream v0 chain) ws ->
+  v_serial v0 <> ser -> v_serial (last chain v0) <> ser ->
+  serial_lt (v_serial (last chain v0)) ser = false ->
+  v_soa v0 <> v_soa (last chain v0) ->
+  exists n, inbound_xfr z tIXFR (Some ser) false ws = (Error eBaseMismatch z, n).
+Proof. exact XfrIxfr.wrong_base_rejected. Qed.
+Print Assumptions wrong_base_rejected.
+
+(* ends early: every proper prefix of a valid IXFR response, in any division into messages *)
+Theorem ixfr_early_end_rejected : forall v0 chain z0 ws q,
+  chain_ok v0 chain -> zeq z0 (zone_of v0) ->
+  Forall (header_ok tIXFR) ws -> q <> [] ->
+  concat (map w_records ws) ++ q = ixfr_stream v0 chain ->
+  exists e n, inbound_xfr z0 tIXFR (Some (v_serial v0)) false ws = (Error e z0, n).
+Proof. exact XfrIxfr.ixfr_early_end_rejected. Qed.
+Print Assumptions ixfr_early_end_rejected.
+
 (* non-vacuity: concrete instances of the hypotheses *)
 Example ex_backwards :
   let w := mkW 0 [(0, tIXFR)] [mkRR 0 1 6 0 3600 5; mkRR 1 1 1 0 300 7] in
@@ -69,3 +108,26 @@ Example ex_error_after_commit_impossible :
     [mkW 0 [] [mkRR 0 1 6 0 3600 2; mkRR 1 1 1 0 5 4; mkRR 0 1 6 0 3600 2; mkRR 1 1 1 0 5 5]]
   = (Error eAfterFinal [], 0%nat).
 Proof. reflexivity. Qed.
+
+(* a two-step chain satisfying chain_ok, with a TTL change, a deletion and additions *)
+Definition ex_v0 := mkV 3600 (4294967295) [((0, 2, 0), (3600, [1; 2])); ((1, 1, 0), (300, [4; 5]))].
+Definition ex_v1 := mkV 3600 0 [((0, 2, 0), (3600, [1; 2])); ((1, 1, 0), (60, [4; 5]))].
+Definition ex_v2 := mkV 600 ((1 * two32) + 7) [((0, 2, 0), (3600, [2; 3])); ((2, 16, 0), (0, [9]))].
+
+Example ex_chain_ok : chain_ok ex_v0 [ex_v1; ex_v2].
+Proof.
+  unfold chain_ok. split; [discriminate|].
+  assert (W : forall v, In v [ex_v0; ex_v1; ex_v2] -> version_wf v).
+  { intros v [<-|[<-|[<-|[]]]]; (split; [cbv; split; discriminate|]); split;
+      repeat constructor; cbv; intuition (try discriminate; try lia). }
+  split; [apply W; cbn; auto|].
+  split; [constructor; [apply W; cbn; auto|constructor; [apply W; cbn; auto|constructor]]|].
+  split; [|reflexivity].
+  intros v [<-|[<-|[]]]; cbv; discriminate.
+Qed.
+
+Example ex_ixfr_runs :
+  fst (inbound_xfr (zone_of ex_v0) tIXFR (Some (v_serial ex_v0)) false
+         (map (fun r => mkW 0 [] [r]) (ixfr_stream ex_v0 [ex_v1; ex_v2])))
+  = Done ((soakey, (600, [v_soa ex_v2])) :: [((2, 16, 0), (0, [9])); ((0, 2, 0), (3600, [2; 3]))]).
+Proof. vm_compute. reflexivity. Qed.
